@@ -10,6 +10,7 @@
   step consists of.
 -/
 import Wormhole.Props.C03
+import Wormhole.Props.C04
 
 namespace Wormhole
 open Sys Sys.Np
@@ -248,7 +249,7 @@ theorem step_release {s : Sys} {c : Nat} {x : Conn} {a : String} (t : Time) (id 
   | some n =>
     refine ⟨n, rfl, ?_⟩
     cases hh : x.nameplateId with
-    | none => simp
+    | none => simp; rfl
     | some held =>
       simp only [hh] at hnr
       have : n = held := by
@@ -256,11 +257,11 @@ theorem step_release {s : Sys} {c : Nat} {x : Conn} {a : String} (t : Time) (id 
         intro hne
         simp [hne] at hnr
       subst this
-      simp
+      simp; rfl
   | none =>
     cases hh : x.nameplateId with
     | none => simp [hh] at hnr
-    | some held => exact ⟨held, by simp [releaseTarget, hh], by simp⟩
+    | some held => exact ⟨held, by simp [releaseTarget, hh], by simp; rfl⟩
 
 /-- **C07_release_total.**  Every `release` that passes validation, from a synced state, is
     answered by exactly `[ack id, released]` (both sent with nothing uncommitted); it resolves to
@@ -312,14 +313,330 @@ theorem C07_release_total {s : Sys} (hs : s.Synced) {c : Nat} {x : Conn} {a : St
     · have h1' : s.db.findNameplate a n = some np' := h1
       rw [hnp] at h1'; cases h1'
       have h2' : s.db.findNpSide np.id (x.side.getD "") = none := h2
-      refine ⟨fun _ => by rw [e]; rfl, fun r0 hr0 => ?_⟩
+      refine ⟨fun _ => (by rw [e]; rfl), fun r0 hr0 => ?_⟩
       rw [h2'] at hr0; cases hr0
     · have h1' : s.db.findNameplate a n = some np' := h1
       rw [hnp] at h1'; cases h1'
       have h2' : s.db.findNpSide np.id (x.side.getD "") = some r0' := h2
-      refine ⟨fun hn => by rw [h2'] at hn; cases hn, fun r0 _ => ?_⟩
+      refine ⟨fun hn => (by rw [h2'] at hn; cases hn), fun r0 _ => ?_⟩
       rcases h3 with ⟨a1, a2, _⟩ | ⟨a1, a2, _⟩
       · exact Or.inl ⟨a1, a2⟩
       · exact Or.inr ⟨a1, a2⟩
+
+
+/-! ### releases that change nothing; the second release -/
+
+theorem Chan.unclaim_eq_self {d : Chan} {i : Nat} {σ : String}
+    (h : ∀ r ∈ d.npSides, r.npid = i → r.side = σ → r.claimed = false) : d.unclaim i σ = d := by
+  unfold Chan.unclaim
+  have : d.npSides.map (fun r => if r.npid = i ∧ r.side = σ then { r with claimed := false } else r) = d.npSides := by
+    conv => rhs; rw [← List.map_id d.npSides]
+    apply List.map_congr_left
+    intro r hr
+    by_cases hc : r.npid = i ∧ r.side = σ
+    · have := h r hr hc.1 hc.2
+      simp only [hc, and_self, if_true, id]
+      cases r; simp_all
+    · simp [hc]
+  rw [this]
+
+/-- after `UPDATE … SET claimed=0` the side holds no claim -/
+theorem Chan.not_claims_unclaim {d : Chan} (hp : d.PInv) {a n σ : String} {np : Nameplate}
+    (hnp : d.findNameplate a n = some np) : ¬ (d.unclaim np.id σ).claims a n σ := by
+  rintro ⟨np', hnp', e1, e2, r, hr, e3, e4, e5⟩
+  obtain ⟨m1, m2, m3⟩ := Chan.findNameplate_spec hnp
+  have : np' = np := hp.np_eq_of_key hnp' m1 (e1.trans m2.symm) (e2.trans m3.symm)
+  subst this
+  simp only [Chan.unclaim, List.mem_map] at hr
+  obtain ⟨r1, _, rfl⟩ := hr
+  by_cases hc : r1.npid = np'.id ∧ r1.side = σ
+  · simp [hc] at e4
+  · simp only [hc, if_false] at e3 e5
+    exact hc ⟨e3, e5⟩
+
+theorem Chan.not_claims_deleted {d : Chan} (hp : d.PInv) {a n σ : String} {np : Nameplate}
+    (hnp : d.findNameplate a n = some np) :
+    ¬ (((d.unclaim np.id σ).delNpSidesOf np.id).delNameplate np.id).claims a n σ := by
+  rintro ⟨np', hnp', e1, e2, _⟩
+  obtain ⟨m1, m2, m3⟩ := Chan.findNameplate_spec hnp
+  simp only [Chan.delNameplate, Chan.delNpSidesOf, Chan.unclaim, List.mem_filter, decide_eq_true_eq] at hnp'
+  have : np' = np := hp.np_eq_of_key hnp'.1 m1 (e1.trans m2.symm) (e2.trans m3.symm)
+  exact hnp'.2 (by rw [this])
+
+/-- **a release by a side that holds no claim changes nothing** (crash-free states, `SInv`):
+    no nameplate `(a, n)`, no row of the side on it, or a row with `claimed = 0`.
+    (Under `CInv` alone the last case is false: after a crash between the two commits of the last
+    release the nameplate has only unclaimed rows, and the re-sent release completes the deletion.) -/
+theorem C07_release_noop {s : Sys} (hs : s.Synced) (hS : s.db.SInv) {c : Nat} {x : Conn} {a n : String} (t : Time)
+    (id : Val) (nm : Option String) (hx : s.findConn c = some x) (ha : x.app = some a)
+    (hnr : rejectText x (.release nm) = none) (htarget : releaseTarget x nm = some n)
+    (hno : ¬ s.db.claims a n (x.side.getD "")) :
+    (s.step (.recv c t id (.release nm))).db = s.db := by
+  obtain ⟨_, n', ht', h1, h2⟩ := C07_release_total hs t id nm hx ha hnr
+  rw [htarget] at ht'; cases ht'
+  cases hnp : s.db.findNameplate a n with
+  | none => exact h1 hnp
+  | some np =>
+    obtain ⟨k1, k2⟩ := h2 np hnp
+    cases hside : s.db.findNpSide np.id (x.side.getD "") with
+    | none => exact k1 hside
+    | some r0 =>
+      obtain ⟨m1, m2, m3⟩ := Chan.findNameplate_spec hnp
+      obtain ⟨s1, s2, s3⟩ := Chan.findNpSide_spec hside
+      have hself : s.db.unclaim np.id (x.side.getD "") = s.db := by
+        apply Chan.unclaim_eq_self
+        intro r hr e1 e2
+        cases hcl : r.claimed with
+        | false => rfl
+        | true => exact absurd ⟨np, m1, m2, m3, r, hr, e1, hcl, e2⟩ hno
+      rcases k2 r0 hside with ⟨_, e⟩ | ⟨hany, _⟩
+      · rw [e, hself]
+      · exfalso
+        rw [hself] at hany
+        obtain ⟨rc, hrc, e1, e2⟩ := hS.npClaimed np m1
+        simp only [Chan.npSidesOf, List.any_eq_false, List.mem_filter, decide_eq_true_eq, Bool.not_eq_true,
+          and_imp] at hany
+        have := hany rc hrc e1
+        rw [e2] at this; cases this
+
+/-- **after a release the side holds no claim** on that nameplate -/
+theorem C07_release_unclaims {s : Sys} (hs : s.Synced) (hc : s.db.CInv) {c : Nat} {x : Conn} {a n : String} (t : Time)
+    (id : Val) (nm : Option String) (hx : s.findConn c = some x) (ha : x.app = some a)
+    (hnr : rejectText x (.release nm) = none) (htarget : releaseTarget x nm = some n) :
+    ¬ (s.step (.recv c t id (.release nm))).db.claims a n (x.side.getD "") := by
+  obtain ⟨_, n', ht', h1, h2⟩ := C07_release_total hs t id nm hx ha hnr
+  rw [htarget] at ht'; cases ht'
+  cases hnp : s.db.findNameplate a n with
+  | none =>
+    rw [h1 hnp]
+    rintro ⟨np, hn, e1, e2, _⟩
+    exact Chan.findNameplate_none_spec hnp np hn ⟨e1, e2⟩
+  | some np =>
+    obtain ⟨k1, k2⟩ := h2 np hnp
+    obtain ⟨m1, m2, m3⟩ := Chan.findNameplate_spec hnp
+    cases hside : s.db.findNpSide np.id (x.side.getD "") with
+    | none =>
+      rw [k1 hside]
+      rintro ⟨np', hn', e1, e2, r, hr, e3, _, e5⟩
+      have : np' = np := hc.toPInv.np_eq_of_key hn' m1 (e1.trans m2.symm) (e2.trans m3.symm)
+      subst this
+      simp only [Chan.findNpSide, List.find?_eq_none, decide_eq_true_eq] at hside
+      exact hside r hr ⟨e3, e5⟩
+    | some r0 =>
+      rcases k2 r0 hside with ⟨_, e⟩ | ⟨_, e⟩
+      · rw [e]; exact Chan.not_claims_unclaim hc.toPInv hnp
+      · rw [e]; exact Chan.not_claims_deleted hc.toPInv hnp
+
+/-- **release is idempotent**: a second release of the same nameplate by the same side (any
+    connection bound to it -- typically a new one, `release` being once-per-connection) changes
+    nothing in the channel database.  `s'` is the state after the first release; `SInv` of `s'` is
+    what `GSys.ReachCF.sinv` provides in crash-free histories. -/
+theorem C07_release_twice {s : Sys} (hs : s.Synced) (hc : s.db.CInv) {c c' : Nat} {x x' : Conn} {a n : String}
+    (t t' : Time) (id id' : Val) (nm nm' : Option String)
+    (hx : s.findConn c = some x) (ha : x.app = some a) (hnr : rejectText x (.release nm) = none)
+    (htarget : releaseTarget x nm = some n)
+    (hs' : (s.step (.recv c t id (.release nm))).Synced) (hS' : (s.step (.recv c t id (.release nm))).db.SInv)
+    (hx' : (s.step (.recv c t id (.release nm))).findConn c' = some x') (ha' : x'.app = some a)
+    (hside : x'.side.getD "" = x.side.getD "")
+    (hnr' : rejectText x' (.release nm') = none) (htarget' : releaseTarget x' nm' = some n) :
+    ((s.step (.recv c t id (.release nm))).step (.recv c' t' id' (.release nm'))).db =
+      (s.step (.recv c t id (.release nm))).db :=
+  C07_release_noop hs' hS' t' id' nm' hx' ha' hnr' htarget'
+    (hside ▸ C07_release_unclaims hs hc t id nm hx ha hnr htarget)
+
+/-! ## C07_reclaimed -/
+
+/-- **C07_reclaimed.**  A claim by a side whose row on the live nameplate says `claimed = 0`
+    (it released earlier) is answered by exactly `[ack, error "reclaimed"]`; both databases and
+    their committed states are unchanged and nothing is committed.  The connection record DOES
+    change: `didClaim := true`, `nameplateId := some n` (the code sets these flags before it calls
+    `claim_nameplate`), so a later `release` without a name on this connection resolves to `n`. -/
+theorem C07_reclaimed {s : Sys} (hs : s.Synced) (hc : s.db.CInv) {c : Nat} {x : Conn} {a n fresh : String}
+    {t : Time} {id : Val} {row : Nameplate} {r : NpSide}
+    (hx : s.findConn c = some x) (ha : x.app = some a) (hd : x.didClaim = false)
+    (hrow : s.db.findNameplate a n = some row)
+    (hside : s.db.findNpSide row.id (x.side.getD "") = some r) (hr : r.claimed = false) :
+    (s.step (.recv c t id (.claim (some n) fresh))).out =
+      [.frame c (.ack id) true, .frame c (.error "reclaimed") true] ∧
+    (s.step (.recv c t id (.claim (some n) fresh))).db = s.db ∧
+    (s.step (.recv c t id (.claim (some n) fresh))).disk = s.disk ∧
+    (s.step (.recv c t id (.claim (some n) fresh))).udb = s.udb ∧
+    (s.step (.recv c t id (.claim (some n) fresh))).udisk = s.udisk ∧
+    (s.step (.recv c t id (.claim (some n) fresh))).snaps = [] ∧
+    (s.step (.recv c t id (.claim (some n) fresh))).conns =
+      s.conns.map (fun y => if y.id = c then { y with didClaim := true, nameplateId := some n } else y) := by
+  have hstep := step_claim t id n fresh hx ha hd
+  generalize hE : (((({ s with out := [], snaps := [] } : Sys).send c (.ack id)).updConn c
+      (fun y => { y with didClaim := true, nameplateId := some n })).claimNameplate a n (x.side.getD "") t fresh) = p
+    at hstep
+  obtain ⟨s1, res⟩ := p
+  have hs0 : ({ s with out := [], snaps := [] } : Sys).synced = true := (synced_iff s).2 hs
+  rcases claimNameplate_present (s := ((({ s with out := [], snaps := [] } : Sys).send c (.ack id)).updConn c
+      (fun y => { y with didClaim := true, nameplateId := some n }))) hc.toPInv hrow hE with
+    ⟨r0, _, _, e1, e2⟩ | ⟨hall, _⟩
+  · subst e1 e2
+    rw [hstep]
+    refine ⟨?_, rfl, rfl, rfl, rfl, rfl, rfl⟩
+    simp [Sys.sendError, Sys.send, Sys.emit, Sys.updConn, hs0]
+    exact hs0
+  · have := hall r hside
+    rw [hr] at this; cases this
+
+/-! ## C07_reusable -/
+
+/-- **C07_reusable.**  After the step that deleted the nameplate row of `(a, n)`, `n` is not among
+    the names of app `a` any more: it disappears from `list` (`C18_list_answer`) and from the
+    `claimed` argument of `findAvailable`. -/
+theorem C07_reusable {g : GSys} (hI : g.GInv) (op : Op) {np : Nameplate} (hnp : np ∈ g.sys.db.nameplates)
+    (hgone : ∀ r ∈ (g.step op).sys.db.nameplates, r.id ≠ np.id) :
+    np.name ∉ (g.step op).sys.db.namesOfApp np.app := by
+  rw [mem_namesOfApp]
+  rintro ⟨r, hr, e1, e2⟩
+  have hnot : np ∉ (g.step op).sys.db.nameplates := fun h => hgone np h rfl
+  have hr0 := (hI.npRel op).sub_of_gone hI.cinv.toPInv hnp hnot r hr
+  have : r = np := hI.cinv.toPInv.np_eq_of_key hr0 hnp e1 e2
+  exact hgone r hr (by rw [this])
+
+/-- ... so `allocate` may hand it out again (link to C04): if the freed name is the decimal
+    rendering of a `k` with `d ≤ 3` digits and no shorter name is free, some outcome of
+    `random.choice` makes `findAvailable` return it in the post-state. -/
+theorem C07_reusable_alloc {g : GSys} (hI : g.GInv) (op : Op) {np : Nameplate} (hnp : np ∈ g.sys.db.nameplates)
+    (hgone : ∀ r ∈ (g.step op).sys.db.nameplates, r.id ≠ np.id) {d k : Nat} (draws : List Nat)
+    (hname : np.name = toString k) (hd : d = 1 ∨ d = 2 ∨ d = 3)
+    (hshorter : ∀ e, 1 ≤ e → e < d → ¬ C04.Free ((g.step op).sys.db.namesOfApp np.app) e)
+    (hlo : 10 ^ (d - 1) ≤ k) (hhi : k < 10 ^ d) :
+    ∃ pick, findAvailable ((g.step op).sys.db.namesOfApp np.app) pick draws = some np.name := by
+  rw [hname]
+  exact C04.C04_every_choice_reachable hd hshorter hlo hhi (hname ▸ C07_reusable hI op hnp hgone)
+
+
+/-! ## non-vacuity -/
+
+/-- a decidable rendering of the per-connection clauses of `GInv` -/
+def connOkB (g : GSys) (x : Conn) : Bool :=
+  (match x.mailbox with
+   | some mb => x.listening &&
+      (match x.app with
+       | some a => g.sys.db.mailboxes.any (fun m => decide (m.id = mb ∧ m.app = a))
+       | none => false)
+   | none => true) &&
+  (!x.listening || x.mailbox.isSome) && (x.app.isSome == x.side.isSome) &&
+  (match x.mailboxId with | some m => decide (m ∈ g.used) | none => true)
+
+/-- a decidable rendering of `GInv` -/
+theorem ginv_of_decide (g : GSys) (hc : g.sys.db.CInv)
+    (hids : g.sys.conns.Pairwise (fun a b => ¬ a.id = b.id))
+    (hconn : g.sys.conns.all (connOkB g) = true)
+    (hsync : g.sys.db = g.sys.disk ∧ g.sys.udb = g.sys.udisk)
+    (hused : ∀ m ∈ g.sys.db.mailboxes, m.id ∈ g.used ∧ m.updated ≤ g.clock) : g.GInv := by
+  rw [List.all_eq_true] at hconn
+  refine ⟨hc, ⟨hids, ?_, ?_, ?_⟩, hsync, fun m hm => (hused m hm).1, ?_, fun m hm => (hused m hm).2⟩
+  · intro x hx mb e
+    have := hconn x hx
+    simp only [connOkB, e, Bool.and_eq_true] at this
+    obtain ⟨⟨⟨⟨h1, h2⟩, _⟩, _⟩, _⟩ := this
+    refine ⟨h1, ?_⟩
+    cases ha : x.app with
+    | none => simp [ha] at h2
+    | some a =>
+      simp only [ha, List.any_eq_true, decide_eq_true_eq] at h2
+      exact ⟨a, rfl, h2⟩
+  · intro x hx h
+    have := hconn x hx
+    simp only [connOkB, Bool.and_eq_true, Bool.or_eq_true] at this
+    obtain ⟨⟨⟨_, h2⟩, _⟩, _⟩ := this
+    rcases h2 with h2 | h2
+    · simp [h] at h2
+    · exact h2
+  · intro x hx
+    have := hconn x hx
+    simp only [connOkB, Bool.and_eq_true, beq_iff_eq] at this
+    rw [this.1.2]
+  · intro x hx m e
+    have := hconn x hx
+    simp only [connOkB, e, Bool.and_eq_true, decide_eq_true_eq] at this
+    exact this.2
+
+theorem exG_ginv : exG.GInv :=
+  ginv_of_decide _ exG_cinv (by decide +kernel) (by decide +kernel) (by decide +kernel) (by decide +kernel)
+
+theorem exG_sinv : exG.sys.db.SInv := ⟨exG_cinv, by decide +kernel, by decide +kernel⟩
+
+/-- in `exG` sides "s1" and "s2" hold ("app","7"); connection 4 (side "s1") claims a NEW name "9" -/
+example := C07_claim_added exG_ginv (.recv 4 17 .null (.claim (some "9") "mb9")) (a := "app") (n := "9") (σ := "s1")
+  (by unfold Chan.claims; decide +kernel) (by unfold Chan.claims; decide +kernel)
+
+/-- "s1" releases "7" on connection 1: its claim goes, the nameplate stays (held by "s2") -/
+example := C07_claim_removed exG_ginv (.recv 1 20 .null (.release none)) (a := "app") (n := "7") (σ := "s1")
+  (by unfold Chan.claims; decide +kernel) (by decide +kernel) (by unfold Chan.claims; decide +kernel)
+
+/-- the state after that release -/
+def exG1 : GSys := exG.step (.recv 1 20 .null (.release none))
+theorem exG1_cinv : exG1.sys.db.CInv := cinv_of_decide _ (by decide +kernel)
+theorem exG1_ginv : exG1.GInv :=
+  ginv_of_decide _ exG1_cinv (by decide +kernel) (by decide +kernel) (by decide +kernel) (by decide +kernel)
+theorem exG1_sinv : exG1.sys.db.SInv := ⟨exG1_cinv, by decide +kernel, by decide +kernel⟩
+
+/-- then "s2" releases too: the row of ("app","7") (id 1) is deleted -- case (i) -/
+example := C07_nameplate_deleted exG1_ginv (.recv 2 21 .null (.release none)) (np := ⟨1, "app", "7", "mb1"⟩)
+  (by decide +kernel) (by decide +kernel)
+example := C07_reusable exG1_ginv (.recv 2 21 .null (.release none)) (np := ⟨1, "app", "7", "mb1"⟩)
+  (by decide +kernel) (by decide +kernel)
+/-- "7" is a one-digit name: `allocate` can return it again -/
+example := C07_reusable_alloc exG1_ginv (.recv 2 21 .null (.release none)) (np := ⟨1, "app", "7", "mb1"⟩)
+  (by decide +kernel) (by decide +kernel) (d := 1) (k := 7) [] (by decide) (Or.inl rfl)
+  (fun e h1 h2 => by omega) (by decide) (by decide)
+
+/-- a release by "s2" does not end the claim of "s1" -/
+example := C07_claim_survives_recv exG_ginv (op := .recv 2 21 .null (.release none)) (a := "app") (n := "7") (σ := "s1")
+  (x := { id := 2, app := some "app", side := some "s2", didClaim := true, nameplateId := some "7" })
+  rfl (by decide +kernel) (by unfold Chan.claims; decide +kernel)
+  (fun nm _ hb => by simp [Conn.BoundTo] at hb) (fun m mood h => by cases h)
+
+example := C07_claim_ended_only_by exG_ginv (.recv 1 20 .null (.release none)) (a := "app") (n := "7") (σ := "s1")
+  (by unfold Chan.claims; decide +kernel) (by unfold Chan.claims; decide +kernel)
+
+/-- listing in `exG`: exactly "7" -/
+example := C07_listed_iff_held (s := exG.sys) exG_sinv (c := 4)
+  (x := { id := 4, app := some "app", side := some "s1" }) (a := "app") 30 .null (by decide +kernel) rfl rfl
+
+/-- the release of "s1" in `exG` (connection 1, no name given: resolves to the claimed "7") -/
+example := C07_release_total (s := exG.sys) exG_synced (c := 1)
+  (x := { id := 1, app := some "app", side := some "s1", didClaim := true, nameplateId := some "7" }) (a := "app")
+  20 .null none (by decide +kernel) rfl (by decide)
+
+/-- a second release by "s1", from its new connection 4, naming "7": nothing changes -/
+example := C07_release_noop (s := exG1.sys) ⟨by decide +kernel, by decide +kernel⟩ exG1_sinv (c := 4)
+  (x := { id := 4, app := some "app", side := some "s1" }) (a := "app") (n := "7") 22 .null (some "7")
+  (by decide +kernel) rfl (by decide) rfl (by unfold Chan.claims; decide +kernel)
+
+example := C07_release_twice (s := exG.sys) exG_synced exG_cinv (c := 1) (c' := 4)
+  (x := { id := 1, app := some "app", side := some "s1", didClaim := true, nameplateId := some "7" })
+  (x' := { id := 4, app := some "app", side := some "s1" }) (a := "app") (n := "7") 20 22 .null .null none (some "7")
+  (by decide +kernel) rfl (by decide) rfl ⟨by decide +kernel, by decide +kernel⟩ exG1_sinv (by decide +kernel) rfl rfl
+  (by decide) rfl
+
+/-- "s1" released "7" (still held by "s2"), then claims it again from connection 4: `reclaimed` -/
+example : (exG1.sys.step (.recv 4 23 (.int 2) (.claim (some "7") "mb4"))).out =
+    [.frame 4 (.ack (.int 2)) true, .frame 4 (.error "reclaimed") true] :=
+  (C07_reclaimed (s := exG1.sys) ⟨by decide +kernel, by decide +kernel⟩ exG1_cinv
+    (x := { id := 4, app := some "app", side := some "s1" }) (row := ⟨1, "app", "7", "mb1"⟩)
+    (r := ⟨1, false, "s1", 11⟩) (by decide +kernel) rfl rfl (by decide +kernel) (by decide +kernel) rfl).1
+
+#print axioms C07_claim_added
+#print axioms C07_claim_removed
+#print axioms C07_nameplate_deleted
+#print axioms C07_claim_ended_only_by
+#print axioms C07_claims_change_only_by_owner
+#print axioms C07_claim_survives_recv
+#print axioms C07_claim_survives_other
+#print axioms C07_listed_iff_held
+#print axioms C07_release_total
+#print axioms C07_release_noop
+#print axioms C07_release_unclaims
+#print axioms C07_release_twice
+#print axioms C07_reclaimed
+#print axioms C07_reusable
+#print axioms C07_reusable_alloc
 
 end Wormhole
